@@ -6,9 +6,10 @@ From Akita Require Import C23.Proofs9 C23.Proofs10 C23.Proofs11 C23.Proofs12 C23
 Local Open Scope N_scope.
 Local Ltac Zify.zify_post_hook ::= idtac.
 
-(** moves between two different sides whose ranges lie inside the two memories (of lengths li, lo) *)
+(** moves whose ranges lie inside the memories (of lengths li, lo) and, when source and
+    destination are on the same side, do not overlap *)
 Definition gmove (li lo : nat) (v : move) : Prop :=
-  v_sside v <> v_dside v /\
+  (v_sside v <> v_dside v \/ v_saddr v + v_size v <= v_daddr v \/ v_daddr v + v_size v <= v_saddr v) /\
   v_saddr v + v_size v <= N.of_nat (pick (v_sside v) li lo) /\
   v_daddr v + v_size v <= N.of_nat (pick (v_dside v) li lo).
 
@@ -28,7 +29,7 @@ Lemma finish_copy d mi mo pi po : d_active d = true -> sinv d -> cinv d mi mo pi
   mem_read (pick (d_sside d) mi mo) (v_saddr (d_req d)) (v_size (d_req d)).
 Proof.
   intros Act S C F. destruct S as [gs gd ms md ws wd sal sside [rd1 [rd2 rd3]] [wr1 [wr2 wr3]] bg bo ch pr pn].
-  destruct C as [Hss Hds Hne Fs Fd R B [W1 W2]].
+  destruct C as [Hss Hds Sep Nw Fs Fd R B [W1 W2]].
   unfold finish in F. rewrite Act in F. cbn [negb] in F. rewrite (w64_small _ wd) in F.
   destruct (d_next_write d <? v_daddr (d_req d) + v_size (d_req d)) eqn:Lt; [discriminate|].
   destruct (d_pread d) as [|x r]; [|discriminate]. destruct (d_pwrite d) as [|y r'] eqn:PW; [|discriminate].
@@ -53,9 +54,8 @@ Proof.
     + apply (UB_bump d); [cbn; lia|reflexivity|exact U].
     + intros _ s Hs id a x Hin.
       change (port_of (mk_dm _ _ _ _ _ _ _ _ _ _ _ _ _ _ _ _ _ _ (d_inside d) (d_outside d) _ _) s) with (port_of d s) in Hin.
-      destruct C as [Hss Hds Hne _ _ [_ [_ R3]] _ [W1 _]].
-      destruct (N.eq_dec s (d_sside d)) as [->|Hn]; [apply (R3 id a x Hin)|].
-      assert (s = d_dside d) by (clear - Hs Hss Hds Hne Hn; lia). subst s.
+      destruct C as [Hss Hds Sep Nw _ _ _ _ [W1 _]].
+      pose proof (Nw s Hs id a x Hin). subst s.
       destruct (W1 id a x Hin) as [[a' Ha'] _].
       apply negb_false_iff, andb_true_iff in P. destruct P as [_ P]. destruct (d_pwrite d); [discriminate|discriminate].
   - constructor; cbn [upd d_active d_top_in]; [|exact Li|exact Lo| | |exact T].
@@ -84,12 +84,12 @@ Proof.
   constructor; cbn [d_active d_top_in]; [|exact Li|exact Lo|intros _|discriminate|exact Tr].
   - apply (UB_bump d); [cbn; lia|reflexivity|exact U].
   - constructor; cbn [d_sside d_dside d_req d_pread d_pwrite d_buf d_next_write d_sg d_dg]; try assumption.
+    + intros s Hs id a x Hin. exfalso. apply (NW s Hs id a x Hin).
     + rewrite pick_length, Li, Lo. exact Gfs.
     + rewrite pick_length, Li, Lo. exact Gfd.
-    + split; [|split].
+    + split.
       * intros id a n _ a' Ha'. discriminate.
       * intros id x _ a Ha. discriminate.
-      * intros id a x Hin. apply (NW _ Hs1 id a x Hin).
     + intros [|i] c Hi; discriminate.
     + rewrite N.sub_diag. split.
       * intros id a x Hin. exfalso. apply (NW _ Hd1 id a x Hin).
